@@ -101,6 +101,9 @@ structure View where
   containerLabel : Val := .none
   siblings : List (Val × Str) := []    -- (value, u) of container.children
   pos : Option Nat := none             -- index of the element itself among them
+  -- the validation state the siblings carry: (`.valid`: True / False / none = Unevaluated, number of errors).
+  -- No `validate` method reads it (theorem `verdict_ignores_validation_state`)
+  siblingState : List (Option Bool × Nat) := []
   -- SetWithKnownFields / SetWithAllFields
   raw : RawView := .unset
   schemaKeys : List Str := []          -- element.field_schema_mapping.keys()
